@@ -36,6 +36,7 @@ func c01(c *Ctx) {
 	sUpToDate(c, "R7/C06.R2", "(*Raft).requestVote", "RequestVoteRequest", "RequestVoteResponse", true, false)
 	c06R3(c, "R7/C06.R3")
 	sVoteIdentity(c, "R7/S-VOTEID")
+	c06R4(c, "R7/C06.R4")
 	sLockDiscipline(c, "R8/S-LOCK", "Raft", "raftState")
 	sAtomicOnly(c, "R8/S-ATOMIC")
 }
